@@ -20,6 +20,13 @@ func (c *FnCtx) computeLoopMods() {
 			b := c.F.Blocks[bi]
 			for _, ins := range b.Instrs {
 				ex, fr := c.E.instrMod(ins)
+				// "fresh" relative to a loop means allocated inside the loop
+				if root := c.E.writeRoot(ins); root != nil && len(fr) > 0 {
+					if ri, ok := root.(ssa.Instruction); !ok || ri.Block() == nil || !l.Blocks[ri.Block().Index] {
+						ex = append(ex, fr...)
+						fr = nil
+					}
+				}
 				var cc *ssa.CallCommon
 				switch x := ins.(type) {
 				case *ssa.Call:
@@ -36,6 +43,27 @@ func (c *FnCtx) computeLoopMods() {
 				}
 				for _, h := range ex {
 					l.Mod[h] = true
+				}
+				// row-level precision: direct writes whose root is defined outside the loop
+				if root := c.E.writeRoot(ins); root != nil && cc == nil {
+					outside := true
+					if ri, ok := root.(ssa.Instruction); ok && ri.Block() != nil && l.Blocks[ri.Block().Index] {
+						outside = false
+					}
+					if _, isGlobal := root.(*ssa.Global); isGlobal {
+						outside = false
+					}
+					for _, h := range ex {
+						if outside && !strings.HasPrefix(h, "G|") {
+							l.ModRows[h] = append(l.ModRows[h], root)
+						} else {
+							l.ModWhole[h] = true
+						}
+					}
+				} else {
+					for _, h := range ex {
+						l.ModWhole[h] = true
+					}
 				}
 				for _, h := range fr {
 					l.ModFresh[h] = true
@@ -101,6 +129,9 @@ func (c *FnCtx) loopNames(l *Loop, phiVal func(*ssa.Phi) Val) map[string]Val {
 			if d, ok := ins.(*ssa.DebugRef); ok {
 				if id, ok := d.Expr.(*ast.Ident); ok {
 					if v, ok := c.vals[d.X]; ok {
+						if v.GT == nil {
+							v.GT = d.X.Type()
+						}
 						if d.IsAddr {
 							v = Val{T: v.T, S: v.S, Place: v.Place, Fn: nil}
 							names["&"+id.Name] = v
@@ -116,10 +147,14 @@ func (c *FnCtx) loopNames(l *Loop, phiVal func(*ssa.Phi) Val) map[string]Val {
 	}
 	for _, ins := range l.Header.Instrs {
 		if phi, ok := ins.(*ssa.Phi); ok {
-			if phi.Comment != "" {
-				names[phi.Comment] = phiVal(phi)
+			pv := phiVal(phi)
+			if pv.GT == nil {
+				pv.GT = phi.Type()
 			}
-			names[phi.Name()] = phiVal(phi)
+			if phi.Comment != "" {
+				names[phi.Comment] = pv
+			}
+			names[phi.Name()] = pv
 		}
 	}
 	// range key/value names: find extracts of Next in loop body with DebugRefs
@@ -213,7 +248,7 @@ func (c *FnCtx) autoInvariants(l *Loop) []autoInv {
 func (c *FnCtx) loopHeader(b *ssa.BasicBlock, l *Loop, fwd []*ssa.BasicBlock) {
 	entrySt := copyState(c.st)
 	// havoc modified heaps
-	c.havocMod(l.Mod, l.ModFresh, fmt.Sprintf("loop %d", l.Ordinal))
+	c.havocLoop(l)
 	// havoc phis
 	hdrVals := map[*ssa.Phi]Val{}
 	for _, ins := range b.Instrs {
@@ -392,6 +427,9 @@ func (c *FnCtx) resultNames(vals []Val) map[string]Val {
 	}
 	res := c.F.Signature.Results()
 	for i := 0; i < res.Len() && i < len(vals); i++ {
+		if vals[i].GT == nil {
+			vals[i].GT = res.At(i).Type()
+		}
 		names[fmt.Sprintf("result.%d", i)] = vals[i]
 		if n := res.At(i).Name(); n != "" && n != "_" {
 			names[n] = vals[i]
@@ -438,4 +476,56 @@ func (c *FnCtx) checkEnsures() {
 			c.checkFrameAtReturn(r, ri)
 		}
 	}
+}
+
+// havocLoop: heaps written in the loop are havocked at its header; when every write to a heap
+// goes directly to the row of an object defined outside the loop, only those rows are havocked.
+func (c *FnCtx) havocLoop(l *Loop) {
+	if l.Mod["*"] {
+		c.havocAll(fmt.Sprintf("loop %d", l.Ordinal))
+		return
+	}
+	rowsOnly := map[string]bool{}
+	exist := map[string]bool{}
+	for h := range l.Mod {
+		if !l.ModWhole[h] && len(l.ModRows[h]) > 0 {
+			rowsOnly[h] = true
+		} else {
+			exist[h] = true
+		}
+	}
+	var hs []string
+	for h := range rowsOnly {
+		hs = append(hs, h)
+	}
+	sort.Strings(hs)
+	for _, h := range hs {
+		c.heapSort(h)
+		cur := c.H(h)
+		hsort := string(c.heapSort(h))
+		// row sort: (Array Int X) -> X
+		rowSort := Sort(strings.TrimSuffix(strings.TrimPrefix(hsort, "(Array Int "), ")"))
+		seen := map[string]bool{}
+		for _, root := range l.ModRows[h] {
+			rv := c.v(root)
+			ref := rv.T
+			if rv.S == SSlice {
+				ref = "(s_ref " + rv.T + ")"
+			}
+			if rv.Place != nil || ref == "" || seen[ref] {
+				if rv.Place != nil || ref == "" {
+					exist[h] = true
+				}
+				continue
+			}
+			seen[ref] = true
+			row := c.freshConst("hrow", rowSort)
+			cur = fmt.Sprintf("(store %s %s %s)", cur, ref, row)
+		}
+		if exist[h] {
+			continue
+		}
+		c.setH(h, cur)
+	}
+	c.havocMod(exist, l.ModFresh, fmt.Sprintf("loop %d", l.Ordinal))
 }
